@@ -97,10 +97,19 @@ class _LikeBut:
             yield f'same-{n}', a == b
 
 
+def _sweep_c15(tier, seed):
+    from harness.sweeps import deck_sweep
+    return deck_sweep('C15', tier, seed, families=('fill',), n_quick=64, n_thorough=600,
+                      kw={'retag': ('C01', 'C05', 'C09')}, name='deck-sweep[fill, decks with LIKE cells]')
+
+
+BOUNDED = {'C15': [_sweep_c15]}
 LEVEL = {'C15': 'other'}
 EXPLANATION = {'C15': (
     'Bounded, exhaustive within the stated scope, on the real parse_one_cell / apply_but / parse_keywords: the cell '
     'object parsed from a LIKE n BUT card (direct and chained) equals, field by field, the cell object parsed from the '
     'explicit card with the listed parameters overridden. The regular expression that splits LIKE cards '
-    '(cellcard.re_likebut) is trusted; it is exercised by the deck sweep of this property.')}
+    '(cellcard.re_likebut) is trusted; it is exercised by the deck sweep of this property (family fill: universes '
+    're-used through LIKE copies of all their cells with U=, FILL=, MAT=, RHO= overridden; owner, provenance and '
+    'composition of every probe point against the deck oracle).')}
 ASSUMPTIONS = {'C15': ['cellcard.re_likebut / LIKE_RE (regular expressions) trusted']}
